@@ -7,7 +7,10 @@ Reference model: the harness's own normaliser (documented normalisations only) a
 map normal form -> first node obtained, with a snapshot of every node ever returned.
 """
 import json
+from collections import OrderedDict
 from fractions import Fraction
+
+from unified_planning.model import InterpretedFunction
 
 from ..core import Engine, stream, BuildError, digest
 from ..build import subtype_of, World, render
@@ -49,6 +52,22 @@ class Cons:
     def __init__(self, W):
         self.W = W
         self.em = W.em
+
+    def ifv(self, variant):
+        """Interpreted functions g#0 and g#1: same name, return type and signature, callables that are two closures
+        of ONE definition (so they share their code object) over different values; g#2 is a second
+        InterpretedFunction object built around the very callable of g#0 (equal to it)."""
+        if not hasattr(self, "_ifv"):
+            tm = self.W.env.type_manager
+
+            def make(c):
+                def fn(a0):
+                    return c
+                return fn
+            f0, f1 = make(0), make(1)
+            mk = lambda fn: InterpretedFunction("g", tm.IntType(0, 5), OrderedDict(a0=tm.IntType(0, 5)), fn, self.W.env)
+            self._ifv = [mk(f0), mk(f1), mk(f0)]
+        return self._ifv[variant]
 
     def arg(self, d):
         """An argument position: may be a python literal or a raw model object."""
@@ -160,6 +179,10 @@ class Cons:
             return self.W.fluents[d[1]](*[self.arg(a) for a in d[2:]])
         if k in ("p", "v", "o", "int", "real", "bool"):
             return self.W.expr(d)
+        if k == "ifv":
+            if d[1] not in (0, 1, 2):
+                raise BuildError(d)
+            return em.InterpretedFunctionExp(self.ifv(d[1]), [self.arg(d[2])])
         raise BuildError(f"unknown construction {d!r}")
 
 
@@ -238,6 +261,8 @@ def nf(d, world, ordered=False):
         return ("real", str(Fraction(d[1])))
     if k == "bool":
         return ("bool", d[1])
+    if k == "ifv":
+        return ("ifv", "g", 1 if d[1] == 1 else 0, rec(d[2]))
     raise BuildError(f"no normal form for {d!r}")
 
 
@@ -256,6 +281,8 @@ def nf_kind(n, world):
     if k in ("p", "v"):
         rt = n[2]
         return ("bool",) if rt[0] == "bool" else ("num",) if rt[0] in ("int", "real") else ("obj", rt[1])
+    if k == "ifv":
+        return ("num",) if nf_kind(n[3], world) == ("num",) else None
     sub = [nf_kind(a, world) for a in n[1:]] if k not in ("exists", "forall", "f") else None
     if k in ("and", "or", "not", "implies", "iff"):
         return ("bool",) if sub and all(x == ("bool",) for x in sub) else None
@@ -314,6 +341,15 @@ def negations_typed(d, world):
         except Exception:
             return False
     return all(negations_typed(c, world) for c in d[1:] if isinstance(c, list))
+
+
+def _unv(x):
+    """What build.render shows of a normal form: the two interpreted functions called g are both rendered `g`."""
+    if isinstance(x, tuple):
+        if x and x[0] == "ifv":
+            return ("if", x[1]) + tuple(_unv(a) for a in x[3:])
+        return tuple(_unv(a) for a in x)
+    return x
 
 
 def ordered_key(d, world):
@@ -493,6 +529,14 @@ class ConsHist(Engine):
                 w1, w2 = ["w1", ["user", t1]], ["w2", ["user", t2]]
                 plain.append([q, [w1], body])
                 plain.append([q, ro.choice([[w1, w1], [w1, w2, w1], [w2, w1, w1]]), body])
+        # two interpreted functions that differ only in their callable are different payloads
+        if ro.random() < 0.5:
+            arg = ro.choice([["f", fluents[1]["name"]], ["int", ro.randint(0, 5)]])
+            for v_ in ro.sample([0, 1, 2, 0, 1], 4):
+                plain.append(["ifv", v_, arg])
+            b_ = ["int", ro.randint(0, 5)]
+            plain.append(["le", ["ifv", 0, arg], b_])
+            plain.append(["le", ["ifv", 1, arg], b_])
         # sharing
         for i in range(ro.randint(2, 6)):
             a, b = ro.choice(plain), ro.choice(plain)
@@ -667,7 +711,7 @@ class ConsHist(Engine):
                 if op.get("ill"):
                     ctx.probe("illtyped-accepted")
                 got = _tj(render(node, sort_vars=False))
-                want = key
+                want = _unv(key)
                 if not op.get("ill"):
                     ctx.check("C16.normal-form", got == _tj(want),
                               f"op {i}: {json.dumps(d)[:300]} built {got}, documented normal form is {_tj(want)}",
@@ -725,6 +769,6 @@ def _kind(e, world=None):
         return "bool" if t[0] == "bool" else ("num" if t[0] in ("int", "real") else "obj")
     if k in ("and", "or", "not", "implies", "iff", "eq", "le", "lt", "ge", "gt", "exists", "forall", "bool"):
         return "bool"
-    if k in ("plus", "minus", "times", "div", "int", "real", "neg"):
+    if k in ("plus", "minus", "times", "div", "int", "real", "neg", "ifv"):
         return "num"
     return "other"
